@@ -27,6 +27,18 @@ pub fn emit(mut v: Value) {
     LOG.lock().unwrap_or_else(|e| e.into_inner()).push(v);
 }
 
+/// like `emit`, but an event identical to the last one logged is not repeated (two polls of the same on_run
+/// invocation with nothing in between -- a task woken twice inside one burst -- are one observation)
+pub fn emit_once(v: Value) {
+    {
+        let g = LOG.lock().unwrap_or_else(|e| e.into_inner());
+        if g.last() == Some(&v) {
+            return;
+        }
+    }
+    emit(v);
+}
+
 pub fn log_len() -> usize {
     LOG.lock().unwrap_or_else(|e| e.into_inner()).len()
 }
